@@ -581,6 +581,29 @@ func (vc *VC) defaultCall(st *State, name string, fn *ssa.Function, args []Val, 
 	return fv
 }
 
+var curProp string
+
+func containsStr(l []string, x string) bool {
+	for _, y := range l {
+		if y == x {
+			return true
+		}
+	}
+	return false
+}
+
+func sharesTag(tags []string, fc *FuncContract) bool {
+	if fc == nil {
+		return true
+	}
+	for _, t := range tags {
+		if fc.Tags[t] {
+			return true
+		}
+	}
+	return false
+}
+
 func shortName(s string) string {
 	if i := strings.LastIndex(s, "/"); i >= 0 {
 		s = s[i+1:]
@@ -881,6 +904,12 @@ func (vc *VC) applyContract(fx *FuncCtx, st *State, fc *FuncContract, sig *types
 		g, err := env2.evalBool(e.Expr)
 		if err != nil {
 			st.setTaint("ensures clause of " + callee + " (" + e.Label + "): " + err.Error())
+			continue
+		}
+		if curProp != "" && len(e.Tags) > 0 && !containsStr(e.Tags, curProp) && !sharesTag(e.Tags, vc.fc) && hasQuantTerm(g) {
+			// a quantified fact established for another property: not needed here, and dropping an assumption is
+			// always sound; it keeps the queries of large callers small
+			vc.used["quantified ensures of "+callee+" tagged for other properties are not assumed"] = true
 			continue
 		}
 		vc.assume(st, g)
